@@ -2,6 +2,7 @@
 From Coq Require Import List ZArith NArith Bool.
 From PC.Base Require Import Util Assoc.
 From PC.Sup Require Import Model Monitors MonC12w.
+From PC.Sup Require LemC01.   (* only for the validity condition of mon_C01, used qualified *)
 Import ListNotations.
 
 Record trace := mkTrace { t_confs : amap pconf; t_ordered : bool; t_evs : list (tid * event) }.
@@ -18,7 +19,13 @@ Definition reject_positions (ts : list trace) : list nat :=
 (* property monitors on the recorded histories (whether or not the model accepts them) *)
 Definition bad_mon (m : amap pconf -> list (tid * event) -> bool) (ts : list trace) : list nat :=
   failing (fun t => m (t_confs t) (t_evs t)) ts.
-Definition bad_C01 := bad_mon holds_C01.
+(* mon_C01 is a faithful reading of the property except when two onProcessEnd executions of one instance overlap
+   with different statuses (the observer keeps one end-state slot; LemC01.sched_ok_C01, flag g_endov; notes/C01.md):
+   there the property text can hold while the monitor fails.  Such a history is outside the monitor's domain and is
+   not judged (no alarm on code where the property holds); theorem C01_main_partial has the same hypothesis. *)
+Definition in_domain_C01 (t : trace) : bool := LemC01.sched_ok_C01 (t_confs t) (t_evs t).
+Definition bad_C01 (ts : list trace) : list nat :=
+  failing (fun t => holds_C01 (t_confs t) (t_evs t) || negb (in_domain_C01 t)) ts.
 Definition bad_C02 := bad_mon holds_C02.
 Definition bad_C03 := bad_mon holds_C03.
 Definition bad_C04 := bad_mon holds_C04.
@@ -151,7 +158,11 @@ Fixpoint mon_run_wn (cs : amap pconf) (m : obs -> tid * event -> bool) (o : obs)
 Definition badwn_mon (m : amap pconf -> obs -> tid * event -> bool) (ts : list trace) : list nat :=
   flat_map (fun t => match mon_run_wn (t_confs t) (m (t_confs t)) (obs0 (t_confs t)) [] (t_evs t) with
                      | Some w => [w] | None => [] end) ts.
-Definition badwn_C01 := badwn_mon mon_C01.
+Definition badwn_C01 (ts : list trace) : list nat :=
+  flat_map (fun t => if in_domain_C01 t
+                     then match mon_run_wn (t_confs t) (mon_C01 (t_confs t)) (obs0 (t_confs t)) [] (t_evs t) with
+                          | Some w => [w] | None => [] end
+                     else []) ts.
 Definition badwn_C02 := badwn_mon mon_C02.
 Definition badwn_C03 := badwn_mon mon_C03.
 Definition badwn_C04 := badwn_mon mon_C04.
